@@ -885,6 +885,19 @@ func (c *CEnv) callExpr(e *CE, hint *Value) Value {
 		a := c.evalH(e.Args[0], nil)
 		c.x.vc.needByteLen()
 		return c.mathInt(App("bytelen", SInt, a.X))
+	case "beval":
+		// beval(a, p, end): big-endian value of the bytes a[p..end) of a sequence (what big.Int.SetBytes computes)
+		if len(e.Args) != 3 || c.mode != ModeInt {
+			c.fail("beval(seq, p, end) (mode int)")
+		}
+		a := c.eval(e.Args[0])
+		p := c.evalH(e.Args[1], nil)
+		q := c.evalH(e.Args[2], nil)
+		if a.X == nil {
+			c.fail("beval: first argument must be a sequence (content(s) or an array value)")
+		}
+		c.x.vc.needBEVal()
+		return c.mathInt(App("beval", SInt, a.X, p.X, q.X))
 	case "rpos", "ravail", "rbyte", "wlen", "wbyte":
 		v, _ := c.ioBuiltin(name, e)
 		return v
@@ -956,6 +969,18 @@ func (c *CEnv) callExpr(e *CE, hint *Value) Value {
 		a := c.eval(e.Args[0])
 		if a.K == KString {
 			return Value{K: KScalar, X: a.X}
+		}
+		if a.K == KArray && a.X != nil {
+			return Value{K: KScalar, X: a.X}
+		}
+		if a.K == KPtr {
+			// pointer to an array of scalars: the array value it points to (indices from 0)
+			if _, ok := a.Loc.T.Underlying().(*types.Array); ok {
+				v := c.x.loadLoc(c.heap(), a.Loc)
+				if v.K == KArray && v.X != nil {
+					return Value{K: KScalar, X: v.X}
+				}
+			}
 		}
 		if a.K != KSlice {
 			c.fail("content() of non-slice")
@@ -1169,6 +1194,9 @@ func (x *Exec) lookupLocalAt(fr *Frame, at *ssa.BasicBlock, upto int, st *State,
 		// the latest definition inside the block before the instruction wins over the block's phis
 		for k := upto - 1; k >= 0; k-- {
 			if i, ok := at.Instrs[k].(*ssa.DebugRef); ok && identName(i) == name {
+				if v, ok := x.memoryOfVar(fr, st, i); ok {
+					return v, true
+				}
 				if i.IsAddr {
 					if a, ok := fr.env[i.X]; ok && a.K == KPtr {
 						return x.loadLoc(st, a.Loc), true
@@ -1209,6 +1237,9 @@ func (x *Exec) lookupLocalAt(fr *Frame, at *ssa.BasicBlock, upto int, st *State,
 					_ = id
 				}
 				if identName(i) == name {
+					if v, ok := x.memoryOfVar(fr, st, i); ok {
+						return v, true
+					}
 					if i.IsAddr {
 						a, ok := fr.env[i.X]
 						if !ok {
@@ -1257,6 +1288,33 @@ func (x *Exec) lookupLocalAt(fr *Frame, at *ssa.BasicBlock, upto int, st *State,
 		if l.Comment == name {
 			if a, ok := fr.env[l]; ok && a.K == KPtr {
 				return x.loadLoc(st, a.Loc), true
+			}
+		}
+	}
+	return Value{}, false
+}
+
+// memoryOfVar: when the source variable a DebugRef names lives in memory (its address is taken, so go/ssa
+// gave it an Alloc), its current value is what that memory holds now, not the value it was initialised with.
+func (x *Exec) memoryOfVar(fr *Frame, st *State, d *ssa.DebugRef) (Value, bool) {
+	obj := d.Object()
+	if obj == nil {
+		return Value{}, false
+	}
+	for _, l := range fr.fn.Locals {
+		if l.Pos() == obj.Pos() {
+			if a, ok := fr.env[l]; ok && a.K == KPtr {
+				return x.loadLoc(st, a.Loc), true
+			}
+		}
+	}
+	// escaping variables are heap Allocs (instructions, not in Locals)
+	for _, b := range fr.fn.Blocks {
+		for _, ins := range b.Instrs {
+			if l, ok := ins.(*ssa.Alloc); ok && l.Heap && l.Pos() == obj.Pos() && l.Comment == obj.Name() {
+				if a, ok := fr.env[l]; ok && a.K == KPtr {
+					return x.loadLoc(st, a.Loc), true
+				}
 			}
 		}
 	}
